@@ -67,6 +67,18 @@ def angles_full():
     )
 
 
+def angles_lt_pi():
+    """[0, pi) with mass at 0, the 1e-6 cut-off, and just below pi."""
+    return st.one_of(
+        floats(0.0, PI).filter(lambda a: a < PI),
+        floats(1e-3, PI - 1e-3),
+        log_uniform(1e-9, 1e-4),
+        st.sampled_from([0.0, 1e-6, math.nextafter(1e-6, 0), math.nextafter(1e-6, 1), 1e-7, 2e-6, 5e-7]),
+        st.integers(1, 12).map(lambda k: PI - 10.0 ** (-k)),
+        st.sampled_from([math.nextafter(PI, 0), PI / 2, PI / 3, 1.0, 3.0]),
+    )
+
+
 def angles_below(maxang):
     """[0, maxang] with boundary mass at 0, around 1e-6, and at maxang."""
     return st.one_of(
